@@ -1,6 +1,6 @@
 """C03 - exactly the taxable transactions are taxed, each once and in full.
 
-All sequences over the 19 (table, type) symbols after a covering purchase; an independent taxability table in this
+All sequences over the 20 (table, type) symbols after a covering purchase; an independent taxability table in this
 file decides what must appear in taxable_event_set / gain_loss_set.
 """
 from __future__ import annotations
@@ -31,6 +31,7 @@ SYMBOLS = (
     + [H.S(1, typ=t, price=5) for t in OUT]
     + [H.S(1, fee=1, typ="SELL", price=5)]
     + [H.M(2, 1, price=7), H.M(2, 0, price=7)]
+    + [H.M(2, 1, src=0, dst=0, price=7)]  # a fee-bearing transfer from an account to itself is still a disposal of the fee
 )
 EXTRA = None
 
@@ -38,6 +39,9 @@ EXTRA = None
 def deviations(hist: History, max_dev: int) -> List[Tuple[History, Dict[str, Any], str]]:
     """One '=' step instead of '+1d' at one position (equal timestamps across tables)."""
     out = []
+    # every amount x 1/1000 and every price x 1/1000: taxable events worth a fraction of a cent are taxable events all the same
+    out.append((hist, {"scale": "1/1000"}, "amounts x 1/1000"))
+    out.append((hist, {"scale": "1/1000", "price_scale": "1/1000"}, "amounts and prices x 1/1000"))
     for i in range(1, len(hist)):
         items = list(hist)
         items[i] = (items[i][0], "=")
@@ -159,7 +163,7 @@ def main(tier: str, budget_s: Optional[float] = None) -> int:
         "evaluations": total.get("evaluations"),
         "distinct_nontrivial": total.get("distinct_nontrivial"),
         "rule": (
-            "all sequences over the 19 (table, type) symbols after a covering purchase (depth counts the purchase), one day "
+            "all sequences over the 20 (table, type) symbols after a covering purchase (depth counts the purchase), one day "
             "apart, plus every placement of one (thorough: two) same-instant steps, x methods; distinct by construction; "
             "non-trivial = contains a taxable row and no symbol twice"
         ),
